@@ -16,14 +16,17 @@ vars == <<p, coll, base, last, accepted, n, obs>>
 Code == [c \in CMin..CMax |-> IF coll # <<0, 0>> /\ c = coll[2] THEN coll[1] ELSE c]
 Tokens == {Code[c] : c \in CMin..CMax} \cup {NoneTok} \cup Malformed
 BaseCounter == IF base = "zero" THEN 0 ELSE CMin - 1
+\* the application has no last counter yet (the library's default): behaves as "one before the first counter"
+NoLast == -1000
+EffLast == IF last = NoLast THEN BaseCounter - 1 ELSE last
 
 Init == /\ p \in Periods /\ coll \in CollPairs /\ base \in Bases
-        /\ last \in Lasts /\ accepted = <<>> /\ n = 0 /\ obs = [tok |-> NoneTok, t |-> 0, w |-> 0, skew |-> 0, res |-> <<"Init">>, fb |-> FALSE]
+        /\ last \in Lasts \cup {NoLast} /\ (base = "zero" => (last >= 0 \/ last = NoLast)) /\ accepted = <<>> /\ n = 0 /\ obs = [tok |-> NoneTok, t |-> 0, w |-> 0, skew |-> 0, res |-> <<"Init">>, fb |-> FALSE]
 
 Attempt(tok, t, w, skew, feedback) ==
     /\ n < MaxAttempts
     /\ n' = n + 1
-    /\ LET r == MatchResult(Code, p, BaseCounter, last, tok, t, w, skew) IN
+    /\ LET r == MatchResult(Code, p, BaseCounter, EffLast, tok \in Malformed, tok, t, w, skew) IN
        /\ obs' = [tok |-> tok, t |-> t, w |-> w, skew |-> skew, res |-> r, fb |-> feedback]
        /\ IF r[1] = "Accept" /\ feedback
           THEN last' = r[2] /\ accepted' = Append(accepted, r[2])
@@ -33,35 +36,38 @@ Attempt(tok, t, w, skew, feedback) ==
 Next == \E tok \in Tokens, t \in Times, w \in Windows, skew \in Skews :
             Attempt(tok, t, w, skew, TRUE)
 
+\* random behaviours (simulation mode): one successor per step
+SimNext == Attempt(RandomElement(Tokens), RandomElement(Times), RandomElement(Windows), RandomElement(Skews), TRUE)
+
 \* ---- properties (C14) --------------------------------------------------------
 \* accepted counters strictly increase, hence no counter (and no code use) is accepted twice
 InvStrictlyIncreasing ==
     \A i \in 1..(Len(accepted) - 1) : accepted[i] < accepted[i + 1]
 InvLastIsNewest ==
     accepted # <<>> => last = accepted[Len(accepted)]
-\* classification exactly as stated
-InvClassification ==
-    n > 0 =>
-      LET r == obs.res
-          ct == obs.t + obs.skew
-      IN /\ (obs.tok \in Malformed) <=> (r[1] = "Malformed")
+\* classification exactly as stated; evaluated on every transition (pre-state `last`, new observation)
+ClassOK(o, lst) ==
+      LET r == o.res
+          ct == o.t + o.skew
+      IN /\ (o.tok \in Malformed) <=> (r[1] = "Malformed")
          /\ r[1] = "Accept" =>
-               /\ Code[r[2]] = obs.tok
-               /\ r[2] >= (ct - obs.w) \div p /\ r[2] <= (ct + obs.w) \div p   \* inside the window, edges inclusive
-               /\ r[2] >= BaseCounter
-               /\ \A c \in CMin..(r[2] - 1) :                                     \* earliest match
-                     (c >= (ct - obs.w) \div p /\ c >= BaseCounter /\ Code[c] = obs.tok) => c < last
-         /\ r[1] = "Used" => r[2] = (last + 1) * p /\ Code[last] = obs.tok
+               /\ Code[r[2]] = o.tok
+               /\ r[2] >= (ct - o.w) \div p /\ r[2] <= (ct + o.w) \div p   \* inside the window, edges inclusive
+               /\ r[2] >= BaseCounter /\ r[2] > lst
+               /\ \A c \in CMin..(r[2] - 1) :                                 \* earliest match not hidden by last
+                     (c >= (ct - o.w) \div p /\ c >= BaseCounter /\ Code[c] = o.tok) => c < lst
+         /\ r[1] = "Used" => r[2] = (lst + 1) * p /\ Code[lst] = o.tok
          /\ r[1] = "Invalid" =>
                \A c \in CMin..CMax :
-                  (c >= (ct - obs.w) \div p /\ c <= (ct + obs.w) \div p /\ c >= last /\ c >= BaseCounter)
-                     => Code[c] # obs.tok
+                  (c >= (ct - o.w) \div p /\ c <= (ct + o.w) \div p /\ c >= lst /\ c >= BaseCounter)
+                     => Code[c] # o.tok
+CheckClass == Assert(ClassOK(obs', EffLast), <<"classification violated", obs', last>>)
 \* action property: an accepted counter is strictly later than the previous last
-AcceptAdvances == [][last' # last => last' > last]_vars
+AcceptAdvances == [][last' # last => (last' > last /\ last' > EffLast)]_vars
 
-Emit == DoEmit => PrintT(<<"EMIT", ToJson([p |-> p, coll |-> coll, base |-> base, last |-> last,
+Emit == CheckClass /\ (DoEmit => PrintT(<<"EMIT", ToJson([p |-> p, coll |-> coll, base |-> base, last |-> last,
                                            tok |-> obs'.tok, t |-> obs'.t, w |-> obs'.w, skew |-> obs'.skew,
-                                           res |-> obs'.res])>>)
+                                           res |-> obs'.res])>>))
 \* the observation is not part of the state for exhaustive runs
 View == <<p, coll, base, last, accepted, n>>
 =============================================================================
